@@ -368,7 +368,7 @@ func implProg(t []string) string {
 }
 
 func showCtrl(m ast.HSMSMessage) string {
-	return fmt.Sprintf("type=%s bytes=%s", hxs(m.Type()), hx(keep(m.ToBytes()))) + earlierResults()
+	return fmt.Sprintf("type=%s bytes=%s", hxs(m.Type()), hx(keep(encTwice(m.ToBytes)))) + earlierResults()
 }
 
 func implDec(b []byte) string {
